@@ -260,6 +260,13 @@ func cmdSession(args []string) error {
 		}
 		lc := buildClient(ops, ident)
 		o := sessObs{Kind: "session", Sys: c.Sys, Client0: clientDigest(lc, ops), Events: []sessEvent{}, Digests: []string{}}
+		// Baseline (step 0): every root resolved once with a fresh resolver over a fresh client; the first
+		// result for a root that the model remembers is therefore one no earlier call can have influenced.
+		for ri, rt := range roots {
+			fc := buildClient(ops, ident)
+			g, err := newResolver(c.Sys, fc).Resolve(ctx, rt)
+			o.Events = append(o.Events, sessEvent{Step: 0, Root: ri + 1, Res: 0, Digest: graphDigest(g, err), Client: o.Client0})
+		}
 		resolvers := map[int]resolve.Resolver{}
 		getRes := func(id int) resolve.Resolver {
 			if resolvers[id] == nil {
